@@ -299,6 +299,10 @@ impl<R: Rng + Send> Multiplexor<R> {
             if let Some(s) = stream {
                 return Ok(s);
             }
+            // The task also answers pending requests like this when the connection ends
+            if self.tx_msg_tx.is_closed() {
+                return Err(Error::Closed);
+            }
             // The rejected flow ID is gone from the map at this point, but another
             // concurrent request on this `Multiplexor` may already have drawn it again,
             // so its absence cannot be asserted here.
